@@ -129,19 +129,52 @@ func Load(repo string, extDir string) (*Program, error) {
 
 // expandAuto adds the synthesized non-nil preconditions of an "auto" contract.
 func (P *Program) expandAuto(c *Contract, fn *ssa.Function) error {
-	for _, p := range fn.Params {
-		pt, ok := p.Type().Underlying().(*types.Pointer)
-		if !ok {
-			continue
-		}
-		if _, ok := pt.Elem().Underlying().(*types.Struct); !ok {
-			continue
-		}
-		cl, err := parseClause(c.File, c.Line, "[auto.nonnil] "+p.Name()+" != nil")
+	add := func(list *[]*Clause, text string) error {
+		cl, err := parseClause(c.File, c.Line, text)
 		if err != nil {
 			return err
 		}
-		c.Requires = append(c.Requires, cl)
+		*list = append(*list, cl)
+		return nil
+	}
+	for _, p := range fn.Params {
+		switch pt := p.Type().Underlying().(type) {
+		case *types.Pointer:
+			if _, ok := pt.Elem().Underlying().(*types.Struct); !ok {
+				continue
+			}
+			if err := add(&c.Requires, "[auto.nonnil] "+p.Name()+" != nil"); err != nil {
+				return err
+			}
+			if strings.HasSuffix(typeName(pt.Elem()), "logg/slog.PrintCtx") {
+				// representation invariant of the record buffer (bytes.Buffer's): 0 <= off <= len(buf)
+				inv := "0 <= " + p.Name() + ".off && " + p.Name() + ".off <= len(" + p.Name() + ".buf)"
+				if err := add(&c.Requires, "[auto.pcinv] "+inv); err != nil {
+					return err
+				}
+				if err := add(&c.Ensures, "[auto.pcinv] "+inv); err != nil {
+					return err
+				}
+				if err := add(&c.Ensures, "[auto.pcoff] implies(old("+p.Name()+".off) == 0, "+p.Name()+".off == 0)"); err != nil {
+					return err
+				}
+			}
+		case *types.Interface:
+			if typeName(p.Type()) == "io.Writer" {
+				// the internal colour helpers are only ever handed the record buffer or a strings.Builder
+				d := "dyn(" + p.Name() + ", *PrintCtx)"
+				inv := "implies(typeis(" + p.Name() + ", *PrintCtx), " + d + " != nil && 0 <= " + d + ".off && " + d + ".off <= len(" + d + ".buf))"
+				if err := add(&c.Requires, "[auto.writer] typeis("+p.Name()+", *PrintCtx) || typeis("+p.Name()+", *strings.Builder)"); err != nil {
+					return err
+				}
+				if err := add(&c.Requires, "[auto.pcinv] "+inv); err != nil {
+					return err
+				}
+				if err := add(&c.Ensures, "[auto.pcinv] "+inv); err != nil {
+					return err
+				}
+			}
+		}
 	}
 	return nil
 }
